@@ -10,8 +10,9 @@
    the property itself is evaluated on every generated image by the independent reader. *)
 From Coq Require Import ZArith List Bool.
 From PV.Model Require Import Pack Checksums.
-From PV.Proofs Require Import PackProofs ChecksumsArithProofs.
-From PV.Gen Require Import GenFun.
+From PV.Base Require Import Prim Upd.
+From PV.Proofs Require Import PackProofs ChecksumsArithProofs PackGenProofs.
+From PV.Gen Require Import GenFun GenObj.
 Import ListNotations.
 Local Open Scope Z_scope.
 
@@ -68,3 +69,27 @@ Theorem C03_nonvacuous :
   forallb (Invb 2048) (dir_trace 2048 (dir_init 2048) ex_ops) = true /\
   length (recs (dir_run 2048 (dir_init 2048) ex_ops)) = 62%nat /\ dlen (dir_run 2048 (dir_init 2048) ex_ops) = 4096.
 Proof. destruct ex_dir_trace as (A & B & C & _). repeat split; assumption. Qed.
+
+(* The packing model IS the source: dr_recalculate (Gen/GenObj.v) is the translation of
+   DirectoryRecord._recalculate_extents_and_offsets regenerated from /repo on every run; from ANY
+   restart index, with ANY stale cached values behind it, it returns Pack.nf of the remaining record
+   lengths started from the cached state of the previous child, stores Pack.nf_pos in the children
+   and numbers them by position.  So every theorem above about nf / nf_pos / cached is a theorem
+   about the current text of dr.py. *)
+Theorem C03_recalculate_is_the_model : forall C pre r offs exts idxs,
+  length offs = length (pre ++ r) -> length exts = length (pre ++ r) -> length idxs = length (pre ++ r) ->
+  let n0 := fst (start offs exts (zlen pre)) in
+  let off0 := snd (start offs exts (zlen pre)) in
+  dr_recalculate (pre ++ r) offs exts idxs (zlen pre) C =
+  (nf C n0 off0 r,
+   firstn (length pre) offs ++ map snd (nf_pos C n0 off0 r),
+   firstn (length pre) exts ++ map fst (nf_pos C n0 off0 r),
+   firstn (length pre) idxs ++ zrange (zlen pre) (zlen (pre ++ r)) 1).
+Proof. exact dr_recalculate_spec. Qed.
+
+Theorem C03_recalculate_from_zero : forall C lens offs exts idxs,
+  length offs = length lens -> length exts = length lens -> length idxs = length lens ->
+  dr_recalculate lens offs exts idxs 0 C =
+  ((num_extents C lens, last_offset C lens),
+   map snd (cached C lens), map fst (cached C lens), zrange 0 (zlen lens) 1).
+Proof. exact dr_recalculate_from_zero. Qed.
